@@ -336,6 +336,47 @@ def run_C02(ctx):
     return vlib.finish(ctx, confirm_all)
 
 
+def describe_hier(ev, obs, entry):
+    sec = ["a in b", "a in [set]", "a is T in b", "scope principal in b", "scope action in [set]", "scope resource is T in b"]
+    n, m = ev["n"], len(ev.get("sets") or [])
+    bounds = [n * n, n * m, 2 * n * n, n * n, n * m, 2 * n * n]
+    idx = entry.get("idx") or []
+    where = []
+    for i in sorted(idx)[:6]:
+        j, k = i - 1, 0
+        while k < len(bounds) and j >= bounds[k]:
+            j -= bounds[k]
+            k += 1
+        where.append("%s#%d" % (sec[min(k, 5)], j))
+    o = "non-termination (watchdog)" if obs == [-1] else ("panic" if obs == [-2] else "%d answers differ: %s" % (len(idx), ", ".join(where)))
+    return "hier n=%d parents=%s present=%s => %s" % (n, json.dumps(ev["par"]), json.dumps(ev["present"]), o)
+
+
+KINDS["hier"] = dict(module="Trace_Hier", shrink=None, describe=describe_hier)
+
+
+@prop("C03")
+def run_C03(ctx):
+    ctx.rule = ("M1: HierarchySearch (the code's iterative search with its pruning rules, one action per loop iteration, parents "
+                "pushed in any order) is model-checked against reflexive-transitive reachability for every store over N nodes, "
+                "every target set (up to renaming for N=4) and every push order, incl. termination. M2: MC_HierarchyGen emits "
+                "every store over N nodes with the specified answers for every ordered pair, every target set, `is T in` and the "
+                "three scope forms (HierVec); the harness builds the EntityMap and asks the real evaluator / authorizer under a "
+                "watchdog. M3: random graphs with 5-10 nodes validated by Trace_Hier. distinct = distinct stores.")
+    ctx.assumptions = ["absent entities are modelled as missing from the EntityMap", "a 20 s watchdog stands for non-termination"]
+    q = ctx.quick
+    inv = ["Correct", "TypeOK", "Sound"]
+    vlib.tlc_check(ctx, "m1.search", "HierarchySearch", mc_cfg(inv, ["Progress", "Terminates"], {"N": 3}, spec="Spec"))
+    if not q:
+        vlib.tlc_check(ctx, "m1.search4", "HierarchySearch", mc_cfg(inv, ["Progress"], {"N": 4}, spec="Spec"), timeout=7200)
+    add_m2(ctx, "hier", "stores3", "MC_HierarchyGen", ["mc/MC_HierarchyGen.tla"], cfg=GEN_CFG + "CONSTANT N = 3\n", min_cases=729)
+    if not q:
+        add_m2(ctx, "hier", "stores4", "MC_HierarchyGen", ["mc/MC_HierarchyGen.tla"], cfg=GEN_CFG + "CONSTANT N = 4\n",
+               min_cases=83521, timeout=7200)
+    add_m3(ctx, "hier", "random", "hier", 1500 if q else 60000)
+    return vlib.finish(ctx, confirm_all)
+
+
 # ====================================================================== replay of a stored violation
 
 def replay(ctx, path):
